@@ -152,6 +152,7 @@ def select(prop, tier):
 
 
 CRASH_OWNERS = {"C01", "C02"}
+SIG_OWNER = {"C10": "alias:", "C13": "swap2"}
 TRIVIAL_OPS = {"ctor()", "alias-skip", "destroy", "~dtor", "RELOCATE"}
 
 
@@ -209,6 +210,9 @@ def aggregate(prop, results, extra_args=(), crash_owner_fn=None):
                 samples.append({"cfg": r["cfg"], "history": s["samples"][0][:1500]})
         for v in r["viols"]:
             props = v.get("props", "").split(",")
+            # a violation of any monitor during an aliased call / a swap2 call also belongs to the property about those calls
+            if SIG_OWNER.get(prop) and (v.get("sig") or "").startswith(SIG_OWNER[prop]):
+                props.append(prop)
             if prop in props:
                 viols.append({"key": core.viol_key(v), "detail": v.get("detail"), "cfg": v["cfg"], "seed": v["seed"], "hist": v.get("hist"),
                               "op": v.get("op"), "desc": v.get("desc"), "monitor": v.get("mon"), "sig": v.get("sig"), "args": list(extra_args)})
@@ -220,6 +224,9 @@ def aggregate(prop, results, extra_args=(), crash_owner_fn=None):
             owners = set(CRASH_OWNERS)
             if crash_owner_fn:
                 owners |= crash_owner_fn(c)
+            for pp, pref in SIG_OWNER.items():
+                if (c.get("sig") or "").startswith(pref):
+                    owners.add(pp)
             if prop in owners:
                 viols.append({"key": "crash:%s|%s" % (c["what"], c["sig"]), "detail": c["what"] + " during " + c.get("desc", ""), "cfg": c["cfg"],
                               "seed": c["seed"], "hist": c.get("hist"), "op": c.get("op"), "sig": c.get("sig"), "stderr_tail": c.get("stderr", "")[-1500:],
@@ -274,4 +281,51 @@ GROWTH_THOROUGH = [
     GrowthCfg("s", 16, "TC8", "basic", "uint32_t"),
     GrowthCfg("s", 4, "NTR", "basic", "uint32_t", compiler="clang++-14"),
     GrowthCfg("v", 0, "TR", "realloc", "uint32_t", std="c++20"),
+]
+
+
+class OneVecCfg(VCfg):
+    """one vector type + an engine header"""
+
+    def __init__(self, prefix, header, flav, n, elem, alloc, st, std="c++17", compiler="g++", extra_defs=""):
+        VCfg.__init__(self, flav, n, elem, alloc, st, "v", std, compiler)
+        self.name = prefix + "_" + self.name
+        self.header = header
+        self.extra_defs = extra_defs
+
+    def source(self):
+        e = ELEMS[self.elem]
+        a = alloc_expr(self.alloc, e) if self.flav != "f" else None
+        v = vec_expr(self.flav, self.n, e, a, self.st)
+        return '#define VF_CFG_NAME "%s"\n%s#include "vec_common.hpp"\nusing Elem = %s;\nusing Vec = %s;\n#include "%s"\n' % (self.name, self.extra_defs, e, v, self.header)
+
+    def spec(self):
+        return {"name": self.name, "source": self.source(), "std": self.std, "compiler": self.compiler, "extra": ["-DAMC_NONSTD_FEATURES"]}
+
+
+def alias_cfg(*a, **k):
+    return OneVecCfg("al", "vec_alias_main.hpp", *a, **k)
+
+
+ALIAS_QUICK = [
+    alias_cfg("v", 0, "NTR", "basic", "uint32_t"),
+    alias_cfg("v", 0, "TR", "realloc", "uint32_t"),
+    alias_cfg("v", 0, "TC4", "amc", "uint8_t"),
+    alias_cfg("s", 3, "NTR", "exact", "uint32_t"),
+    alias_cfg("s", 8, "TR", "basic", "uint32_t"),
+    alias_cfg("s", 4, "TC12", "realloc", "uint16_t"),
+    alias_cfg("f", 8, "NTR", "none", "uint8_t"),
+    alias_cfg("f", 8, "TR", "none", "uint8_t"),
+]
+ALIAS_THOROUGH = [
+    alias_cfg("v", 0, "NTR", "std", "int16_t"),
+    alias_cfg("s", 1, "NTR", "basic", "uint32_t"),
+    alias_cfg("s", 2, "TR", "realloc", "uint8_t"),
+    alias_cfg("s", 16, "NTR", "basic", "uint32_t"),
+    alias_cfg("s", 16, "TC8", "amc", "uint64_t"),
+    alias_cfg("f", 16, "TC4", "none", "uint8_t"),
+    alias_cfg("f", 16, "NTR", "none", "uint8_t"),
+    alias_cfg("s", 4, "NTR", "basic", "uint32_t", compiler="clang++-14"),
+    alias_cfg("v", 0, "TR", "realloc", "uint32_t", std="c++20"),
+    alias_cfg("s", 4, "NTR", "exact", "uint32_t", std="c++11"),
 ]
